@@ -349,4 +349,130 @@ theorem hist_pair : ∀ (h : List Op) (s u : Engine) (g : Graph), Pair s u g →
       · show ((Op.close :: h).filter isTxOp).foldlM (runOp Cfg.current) u = _
         rw [List.filter_cons_of_neg (by simp [isTxOp])]; exact h2
 
+/-! ### failed commits (C07): BeginTx and some records stay in the log, without a CommitTx -/
+
+/-- a log fragment of a failed commit changes none of the invariants: replay drops it -/
+theorem Pair.walFragment {a u : Engine} {g : Graph} (h : Pair a u g) (t : Nat) (recs : List WalRec)
+    (hb : ∀ r ∈ recs, r.isBody = true) (j : Nat) :
+    Pair { a with wal := a.wal ++ (WalRec.beginTx t :: recs).take j } u g := by
+  refine ⟨h.eqv.congr ⟨rfl, rfl, rfl, rfl, rfl⟩ ⟨rfl, rfl, rfl, rfl, rfl⟩ h.eqv.idmap h.eqv.interner h.eqv.vecs,
+    h.sim, ?_, ?_, ⟨h.segs.store, h.segs.lt, h.segs.nodup⟩, h.base, ⟨h.root.eq, h.root.empty⟩⟩
+  · obtain ⟨⟨txs, hbk, hl, hs, hg, b1, b2, b3⟩, hp, ha⟩ := h.recv
+    exact ⟨⟨txs, hbk.appendFragment t recs hb j, hl, hs, hg, b1, b2, b3⟩, hp, ha⟩
+  · obtain ⟨txs, hbk, hq⟩ := h.quiet.inv
+    exact ⟨⟨txs, hbk.appendFragment t recs hb j, hq⟩⟩
+
+/-- a transaction whose commit fails at its `j`-th log append -/
+theorem Pair.txFail {s u : Engine} {g : Graph} (h : Pair s u g) (ops : List TxOp) (j : Nat)
+    (hb : u.interner.length + ops.length ≤ labelMax)
+    (hclear : removalsClear (runTx Cfg.current s ops false) = true) :
+    Pair (runTxFail Cfg.current s ops j) (runTx Cfg.current u ops false) g := by
+  have h0 := h.abort ops hb hclear
+  have hgr := graphRecords_isGraph (ops.foldl (stepTx Cfg.current) s.beginWrite).2
+    ((ops.foldl (stepTx Cfg.current) s.beginWrite).2.mt.freeze (ops.foldl (stepTx Cfg.current) s.beginWrite).2.txid)
+  exact h0.walFragment _ _ (fun r hr => (isGraph_body r (hgr r hr)).1) j
+
+/-- the decidable side conditions for histories with failed commits (as `ckptHistSafe`) -/
+def xHistSafe (c : Cfg) : Engine → List XOp → Bool
+  | _, [] => true
+  | s, .op (.tx ops b) :: h => txNoLabelOps ops && removalsClear (runTx c s ops b) && xHistSafe c (runTx c s ops b) h
+  | s, .txFail ops j :: h =>
+    txNoLabelOps ops && removalsClear (runTx c s ops false) && xHistSafe c (runTxFail c s ops j) h
+  | s, .op .compact :: h => compactSafe c s && xHistSafe c (s.compact c) h
+  | s, .op .reopen :: h => match s.reopen with
+    | .ok s' => xHistSafe c s' h
+    | .error _ => false
+  | s, .op .close :: h => match s.checkpointOnClose.reopen with
+    | .ok s' => xHistSafe c s' h
+    | .error _ => false
+
+theorem hist_pairX : ∀ (xs : List XOp) (s u : Engine) (g : Graph), Pair s u g →
+    xHistSafe Cfg.current s xs = true → wfFrom g (xs.map XOp.erase) = true →
+    u.interner.length + histSize (xs.map XOp.erase) ≤ labelMax →
+    anyCommitted txDeletesRelWithProps g (xs.map XOp.erase) = false →
+    anyCommitted (fun _ => txLabelReAdd) g (xs.map XOp.erase) = false →
+    anyCommitted (fun _ => txEdgeAndEndpointDelete) g (xs.map XOp.erase) = false →
+    anyCommitted (fun _ => txExtZero) g (xs.map XOp.erase) = false →
+    ∃ s' u', xs.foldlM (runX Cfg.current) s = .ok s' ∧
+      (txPart (xs.map XOp.erase)).foldlM (runOp Cfg.current) u = .ok u' ∧
+      Pair s' u' ((xs.map XOp.erase).foldl Graph.opStep g) := by
+  intro xs
+  induction xs with
+  | nil => intro s u g hP _ _ _ _ _ _ _; exact ⟨s, u, rfl, rfl, hP⟩
+  | cons x xs ih =>
+    intro s u g hP hs hwf hb t1 t2 t3 t4
+    rw [List.map_cons] at hwf hb t1 t2 t3 t4 ⊢
+    cases x with
+    | txFail ops j =>
+      simp only [xHistSafe, Bool.and_eq_true] at hs
+      simp only [XOp.erase, wfFrom, Bool.and_eq_true] at hwf
+      simp only [XOp.erase, histSize] at hb
+      simp only [XOp.erase, anyCommitted] at t1 t2 t3 t4
+      have hlen := runTx_interner_le Cfg.current u hP.sim.G.nodup ops false
+      have hP' := hP.txFail ops j (by omega) hs.1.2
+      obtain ⟨s', u', h1, h2, h3⟩ := ih _ _ _ hP' hs.2 hwf.2 (by omega) t1 t2 t3 t4
+      refine ⟨s', u', by rw [List.foldlM_cons]; exact h1, ?_, h3⟩
+      show (txPart (Op.tx ops false :: xs.map XOp.erase)).foldlM (runOp Cfg.current) u = _
+      unfold txPart; rw [List.filter_cons_of_pos (by rfl), List.foldlM_cons]; exact h2
+    | op o =>
+    cases o with
+    | tx ops b =>
+      simp only [xHistSafe, Bool.and_eq_true] at hs
+      simp only [XOp.erase, wfFrom, Bool.and_eq_true] at hwf
+      simp only [XOp.erase, histSize] at hb
+      have hlen := runTx_interner_le Cfg.current u hP.sim.G.nodup ops b
+      have htp : txPart (Op.tx ops b :: xs.map XOp.erase) = Op.tx ops b :: txPart (xs.map XOp.erase) := by
+        unfold txPart; rw [List.filter_cons_of_pos (by rfl)]
+      cases b with
+      | true =>
+        simp only [XOp.erase, anyCommitted, Bool.or_eq_false_iff] at t1 t2 t3 t4
+        have hP' := hP.commit ops hwf.1 (by omega) t4.1 t2.1 t3.1 t1.1 hs.1.1 hs.1.2
+        obtain ⟨s', u', h1, h2, h3⟩ := ih _ _ _ hP' hs.2 hwf.2 (by omega) t1.2 t2.2 t3.2 t4.2
+        exact ⟨s', u', by rw [List.foldlM_cons]; exact h1, by
+          show (txPart (Op.tx ops true :: xs.map XOp.erase)).foldlM (runOp Cfg.current) u = _
+          rw [htp, List.foldlM_cons]; exact h2, h3⟩
+      | false =>
+        simp only [XOp.erase, anyCommitted] at t1 t2 t3 t4
+        have hP' := hP.abort ops (by omega) hs.1.2
+        obtain ⟨s', u', h1, h2, h3⟩ := ih _ _ _ hP' hs.2 hwf.2 (by omega) t1 t2 t3 t4
+        exact ⟨s', u', by rw [List.foldlM_cons]; exact h1, by
+          show (txPart (Op.tx ops false :: xs.map XOp.erase)).foldlM (runOp Cfg.current) u = _
+          rw [htp, List.foldlM_cons]; exact h2, h3⟩
+    | compact =>
+      simp only [xHistSafe, Bool.and_eq_true] at hs
+      simp only [XOp.erase, wfFrom] at hwf
+      simp only [XOp.erase, histSize] at hb
+      simp only [XOp.erase, anyCommitted] at t1 t2 t3 t4
+      have hP' := hP.compact hs.1
+      obtain ⟨s', u', h1, h2, h3⟩ := ih _ _ _ hP' hs.2 hwf hb t1 t2 t3 t4
+      refine ⟨s', u', by rw [List.foldlM_cons]; exact h1, ?_, h3⟩
+      show ((Op.compact :: xs.map XOp.erase).filter isTxOp).foldlM (runOp Cfg.current) u = _
+      rw [List.filter_cons_of_neg (by simp [isTxOp])]; exact h2
+    | reopen =>
+      obtain ⟨s1, hopen, hP'⟩ := hP.reopen
+      simp only [xHistSafe, hopen] at hs
+      simp only [XOp.erase, wfFrom] at hwf
+      simp only [XOp.erase, histSize] at hb
+      simp only [XOp.erase, anyCommitted] at t1 t2 t3 t4
+      obtain ⟨s', u', h1, h2, h3⟩ := ih _ _ _ hP' hs hwf hb t1 t2 t3 t4
+      refine ⟨s', u', ?_, ?_, h3⟩
+      · rw [List.foldlM_cons]
+        show (s.reopen >>= fun s' => xs.foldlM (runX Cfg.current) s') = _
+        rw [hopen]; exact h1
+      · show ((Op.reopen :: xs.map XOp.erase).filter isTxOp).foldlM (runOp Cfg.current) u = _
+        rw [List.filter_cons_of_neg (by simp [isTxOp])]; exact h2
+    | close =>
+      obtain ⟨s1, hopen, hP'⟩ := hP.close
+      simp only [xHistSafe, hopen] at hs
+      simp only [XOp.erase, wfFrom] at hwf
+      simp only [XOp.erase, histSize] at hb
+      simp only [XOp.erase, anyCommitted] at t1 t2 t3 t4
+      obtain ⟨s', u', h1, h2, h3⟩ := ih _ _ _ hP' hs hwf hb t1 t2 t3 t4
+      refine ⟨s', u', ?_, ?_, h3⟩
+      · rw [List.foldlM_cons]
+        show (s.checkpointOnClose.reopen >>= fun s' => xs.foldlM (runX Cfg.current) s') = _
+        rw [hopen]; exact h1
+      · show ((Op.close :: xs.map XOp.erase).filter isTxOp).foldlM (runOp Cfg.current) u = _
+        rw [List.filter_cons_of_neg (by simp [isTxOp])]; exact h2
+
 end Nervus.Storage
